@@ -269,6 +269,24 @@ func genWiring() {
 		add("tcpAuthFailureIsAbsorbed", ok1, where, "handleConnection: on authErr it calls h.absorbProbe and returns authErr (whatever the status: cipher, client replay, server replay)")
 		add("tcpAddAuthenticatedOnlyAfterAuth", ok2, where, "connMetrics.AddAuthenticated(id) is called once, after the authErr branch")
 	}
+	// ---- the probe drain reads the client connection itself, to its end: no cap, no wrapper around it
+	{
+		ok := false
+		where := ""
+		if fd := svc.findFunc("streamHandler", "absorbProbe"); fd != nil && fd.Body != nil && len(fd.Type.Params.List) > 0 && len(fd.Type.Params.List[0].Names) > 0 {
+			where = pos(fd.Body)
+			conn := fd.Type.Params.List[0].Names[0].Name // the first parameter, whatever it is called
+			copies := callsOf(fd.Body, "io.Copy")
+			ok = len(copies) == 1 && len(copies[0].Args) == 2 && exprString(copies[0].Args[0]) == "io.Discard" && exprString(copies[0].Args[1]) == conn
+			// ... and nothing else reads from it or bounds it
+			for _, bad := range []string{"io.CopyN", "io.LimitReader", "io.ReadFull", "io.ReadAtLeast", conn + ".Read", conn + ".SetReadDeadline", conn + ".SetDeadline", conn + ".Close", conn + ".CloseRead"} {
+				if len(callsOf(fd.Body, bad)) > 0 {
+					ok = false
+				}
+			}
+		}
+		add("tcpProbeDrainIsTheWholeConnection", ok, where, "absorbProbe drains with exactly one io.Copy(io.Discard, <its connection parameter>): the connection itself, unbounded, and it neither closes it nor touches its deadline")
+	}
 	// ---- every accepted connection is reported opened exactly once, before it is handled
 	{
 		ok := false
